@@ -43,7 +43,7 @@ def load_property(pid):
     for k in dir(base):
         if not k.startswith("__"): setattr(m, k, getattr(base, k))
     mods = [base] + parts
-    for k in ("THEOREMS", "LEAN_MODULES", "GEN", "TRUSTED", "ASSUMPTIONS"):
+    for k in ("THEOREMS", "LEAN_MODULES", "GEN", "TRUSTED", "ASSUMPTIONS", "PINS"):
         acc = []
         for x in mods:
             for v in getattr(x, k, []):
@@ -155,6 +155,11 @@ def main():
             proof_broken.append("translator %s failed on the current source: %s" % (getattr(g, "__name__", g), e))
             log(traceback.format_exc())
     cov["regenerated_files_changed"] = regen
+    # source pins of the functions the hand-written models mirror
+    import pins as pinsmod
+    changed, npinned = pinsmod.compare(ctx.build, pid, [tuple(x) for x in getattr(mod, "PINS", [])])
+    cov["source_pins"] = npinned; cov["source_pins_changed"] = changed
+    for c in changed: proof_broken.append("the source text of a function mirrored by the Lean model changed: " + c)
 
     # 3. proofs + audit
     theorems = list(getattr(mod, "THEOREMS", []))
